@@ -84,7 +84,8 @@ func openFS(base, esc, shard string) (*fsstore.Store, error) {
 // c18Run executes the scenario once with a fault at the k-th hook call (k<0: no fault) and
 // returns the hook points seen, the committed keys and the in-flight key.
 func c18Run(c C18Case, base string, k int, fault string) (points []string, committed map[string][]byte, inflight map[string][]byte, opErr error, crashed bool) {
-	ctx := context.Background()
+	ctx, cancelOp := context.WithCancel(context.Background())
+	defer cancelOp()
 	committed = map[string][]byte{}
 	inflight = map[string][]byte{}
 	keyA, _ := val.UnTxt(c.KeyA)
@@ -116,6 +117,12 @@ func c18Run(c C18Case, base string, k int, fault string) (points []string, commi
 		if k >= 0 && calls-1 == k {
 			if fault == "crash" {
 				panic(crashSentinel{point})
+			}
+			if fault == "cancel" {
+				// the caller's context is cancelled at this very point of the operation; the operation goes on
+				// however it likes, but what it leaves behind is absent or complete
+				cancelOp()
+				return nil
 			}
 			if fault == "collide" {
 				// the freshly chosen staging name is already taken by a leftover file with other, longer content
@@ -328,7 +335,7 @@ func c18Check(c C18Case, rec *evid.Rec) error {
 		return err
 	}
 	for k := range points {
-		for _, fault := range []string{"crash", "error", "efbig", "collide"} {
+		for _, fault := range []string{"crash", "error", "cancel", "efbig", "collide"} {
 			if fault == "efbig" && (points[k] != "put.write" || c.Size < 2) {
 				continue
 			}
@@ -375,7 +382,7 @@ func drawC18(t *rapid.T, scenario string) C18Case {
 
 var c18Part = evid.Part[C18Case]{
 	Prop: "C18", Name: "faultpoints", Quick: 160, Thorough: 16000,
-	Rule: "scenario (put into a fresh shard dir / an existing one, re-put, streamed put in k chunks, abandoned stream, abort with the empty key, write error, cancelled context) × drawn keys, sizes, escaping and sharding × EVERY hook point of the operation (create staging file, write, close, rename, mkdir of missing parents, retry, cleanup) × {crash: the hook panics and all in-memory state is abandoned; error: the step fails; at the write of Put also efbig: the real write(2) fails after half of the data (file-size limit); at the creation of the staging file also collide: the chosen name already holds a longer leftover file}; afterwards a NEW store must find every committed key complete, the in-flight key absent or complete, no partial file outside the staging area, and fresh puts/gets working; every (scenario, point, fault) execution is counted (distinct by construction within a case)",
+	Rule: "scenario (put into a fresh shard dir / an existing one, re-put, streamed put in k chunks, abandoned stream, abort with the empty key, write error, cancelled context) × drawn keys, sizes, escaping and sharding × EVERY hook point of the operation (create staging file, write, close, rename, mkdir of missing parents, retry, cleanup) × {crash: the hook panics and all in-memory state is abandoned; error: the step fails; cancel: the context given to the operation is cancelled at that point; at the write of Put also efbig: the real write(2) fails after half of the data (file-size limit); at the creation of the staging file also collide: the chosen name already holds a longer leftover file}; afterwards a NEW store must find every committed key complete, the in-flight key absent or complete, no partial file outside the staging area, and fresh puts/gets working; every (scenario, point, fault) execution is counted (distinct by construction within a case)",
 	Gen: func(t *rapid.T) C18Case {
 		return drawC18(t, rapid.SampledFrom(c18Scenarios).Draw(t, "scenario"))
 	},
